@@ -16,3 +16,18 @@ def register(add):
     add('sha512_input', ['C14'], 'SHA512Input', decls='SHA512Context *c; const uint8_t *m; unsigned n;', call='SHA512Input(c, m, n)',
         replace=['SHA384_512ProcessMessageBlock'], loops=True, timeout=300, arb_n=8,
         bound_note='all message lengths up to 100000 bytes: the byte loop is closed by a loop contract', **b5)
+    add('md_hmac', ['C14', 'C08'], 'md_hmac', sources=['src/md/relic_md_hmac.c'], headers=['hmac.h', 'hmac_state.h'], conf='base', route='bounded', unwind=100,
+        decls='uint8_t *mac; const uint8_t *in, *key; size_t in_len, key_len;', call='md_hmac(mac, in, in_len, key, key_len)',
+        replace=['md_map_sh256/md_map_sh256_h'], flags=['--object-bits', '9'], timeout=900,
+        bound_note='text <= 24 bytes, key <= 72 bytes (below, at and above the 64-byte block); block loops unwound completely; hash abstract',
+        ignore=[('memcpy src/dst overlap', 'after hashing a long key md_hmac copies _key onto itself with memcpy: formally overlapping, assumed to leave the bytes unchanged')],
+        note='hash abstract: returns ghost digests and records what it was fed')
+    KS = ['src/md/relic_md_kdf.c', 'src/relic_util.c']
+    add('nist_kdf', ['C14', 'C08'], 'nist_kdf', sources=KS, headers=['kdf.h', 'kdf_state.h'], defines=['VC_KDF_STATICS', 'VC_KDF_MAXOUT=40', 'VC_KDF_MAXIN=6'], conf='base', route='bounded', unwind=5,
+        decls='uint8_t *key; const uint8_t *in; size_t key_len, in_len; dig_t v;', call='nist_kdf(key, key_len, in, in_len, v)',
+        replace=['md_map_sh256/md_map_sh256_k'], flags=['--object-bits', '9'], timeout=2400, tier='thorough',
+        bound_note='output <= 40 bytes (2 blocks incl. a truncated tail), input <= 6 bytes; loops unwound completely; hash abstract')
+    for f in ('md_kdf', 'md_mgf'):
+        add(f, ['C14'], f, sources=KS, headers=['kdf.h', 'kdf_state.h'], conf='base', route='proof', unwind=4,
+            decls='uint8_t *key; const uint8_t *in; size_t key_len, in_len;', call='%s(key, key_len, in, in_len)' % f, replace=['nist_kdf'],
+            bound_note='loop-free')
